@@ -1223,6 +1223,11 @@ class _TeeIterator(Iterator[_ValueT]):
       self._exhausted = True
       self._returned = e.value
       raise e
+    except Exception:
+      # A failed read yields no output, records a placeholder so that the
+      # re-iteration stays aligned with the output skipped for it.
+      self._buffer.append(_SKIP)
+      raise
     if self._buffer_size and len(self._buffer) == self._buffer_size:
       raise RuntimeError(
           f'Buffer reached capacity: {len(self._buffer)} / {self._buffer_size}.'
